@@ -66,6 +66,21 @@ def dictionary_components():
     return comps[:12]
 
 
+def dictionary_tails():
+    """the last two components of every path literal of helpers.py (the internal probe directory): climbing out and re-entering
+    a directory named like the probe is the classic way a lexical containment test is fooled"""
+    import py7zr.helpers as h
+
+    src = open(h.__file__, encoding="utf-8").read()
+    tails = []
+    lits = sorted(set(re.findall(r"[\"']([^\"'\n]*/[^\"'\n]*)[\"']", src)), key=lambda lit: (-lit.count("/"), lit))
+    for lit in lits:
+        comps = [c.strip() for c in lit.split("/") if c.strip() and re.fullmatch(r"[A-Za-z0-9_.:-]{1,40}", c.strip()) and c.strip() not in (".", "..")]
+        if len(comps) >= 2 and tuple(comps[-2:]) not in tails:
+            tails.append(tuple(comps[-2:]))
+    return tails[:4]
+
+
 def make_name(prefix, comps, suffix):
     return prefix + "/".join(comps) + suffix
 
@@ -89,7 +104,8 @@ class C16(Check):
             "{'','/','//'}, suffix in {'','/'} is passed to writestr/writef of a fresh Copy-filter archive (batches of 400) between a "
             "'before' and an 'after' member; ValueError expected iff the independent resolver rejects; after close the listing must be "
             "exactly before + accepted names (lexically equivalent, non-absolute) + after. Plus names <=4 components over "
-            "{a,..}+dictionary of path literals from helpers.py, Hypothesis names, and write()/writeall() of a scratch tree in 8 path "
+            "{a,..}+dictionary of path literals from helpers.py, names of 2..6 components over {..,a}+the last two components of each "
+            "such literal (the internal probe directory), Hypothesis names, and write()/writeall() of a scratch tree in 8 path "
             "forms. Non-trivial: name contains '..' or an absolute/drive prefix; distinct by name.")
     assumptions = ["independent verdict: split on '/', absolute iff leading '/', reject iff depth goes negative",
                    "POSIX host: 'c:' is an ordinary component for writestr/writef; write() strips it as a drive prefix"]
@@ -127,6 +143,18 @@ class C16(Check):
             idx += 1
             if env.mine(idx):
                 yield {"k": "names", "names": batch, "src": "dictionary"}
+        def tnames():
+            for tail in dictionary_tails():
+                alpha3 = ["..", "a"] + list(tail)
+                for k in range(2, 7):
+                    for comps in itertools.product(alpha3, repeat=k):
+                        if ".." in comps and any(c in tail for c in comps):
+                            yield "/".join(comps)
+
+        for batch in chunks(tnames(), 400):
+            idx += 1
+            if env.mine(idx):
+                yield {"k": "names", "names": batch, "src": "probe-tail"}
         for form in range(8):
             for entry in ("write", "writeall"):
                 idx += 1
